@@ -84,7 +84,17 @@ def run_pool():
     # the other bundled provider (appended last: earlier indices stay what they were)
     for d, s in SCRIPTS:
         specs.append({"dialect": d, "sql": s, "provider": "sa", "config": None})
+    # providers that DISAGREE about the same table name, under a non-default setting whose answer depends on the table's columns
+    # (lateral column alias reference: 'id' is the alias unless the table itself has a column of that name)
+    for s in LCA_SCRIPTS:
+        for prov in ("md", "md2", "default"):
+            specs.append({"dialect": "ansi", "sql": s, "provider": prov, "config": {"LATERAL_COLUMN_ALIAS_REFERENCE": True}})
+        specs.append({"dialect": "ansi", "sql": s, "provider": "md2", "config": None})
     return specs
+
+
+LCA_SCRIPTS = ["insert into s.t8 select a as id, id as x from s.src", "insert into s.t9 select b as z, z + 1 as y from s.other; insert into s.t8 select a as id, id as x from s.src"]
+MD2 = {"s.src": ["a", "id"], "s.src2": ["a", "d"], "s.other": ["b", "q"]}  # same table names as MD, other columns
 
 
 def make_sa():
@@ -135,6 +145,8 @@ def execute_run(spec, provider_obj=None):
     if prov is None:
         if spec["provider"] == "md":
             prov = DummyMetaDataProvider(dict(MD))
+        elif spec["provider"] == "md2":
+            prov = DummyMetaDataProvider(dict(MD2))
         elif spec["provider"] == "sa":
             prov = make_sa()
         elif spec["provider"].startswith("faulty:"):
